@@ -133,7 +133,11 @@ theorem StepR.thS {sh th o} (h : StepR sh th o) (hok : ThOK th) (hi : ThS th) : 
       · simp [newFrame] at hr
       · exact asyncH f (by simp) r hr hasync
       · exact asyncH g (by simp [hg]) r hr hasync
-  case lock r a f fs hpc hfr hfree =>
+  case lockDeadSync r a f fs hpc hfr hj hfree hl hsh =>
+    exact ⟨shp hsh hfr (hok.lock hpc hfr).2, by simp [hsh.new_nil]⟩
+  case lockDeadJob r a j f hpc hj hfr hfree hl =>
+    exact ⟨⟨by simp, by simp, by simp, by simp, by simp, by simp⟩, by simp⟩
+  case lock r a f fs hpc hfr hfree hl =>
     rw [hfr] at tailH asyncH
     refine ⟨⟨by simpa using tailH, by simp, by simp, by simp, by simp, ?_⟩, by simp⟩
     intro g hg r' hr' hasync
@@ -234,7 +238,9 @@ theorem step_of_enabled {sh : Shared} {th : Thread} (hok : ThOK th) (hs : ThS th
       · obtain ⟨_, ⟨f, fs, hfr, _⟩, _⟩ := hok; exact ⟨f, fs, hfr⟩
     obtain ⟨f, fs, hfr⟩ := this
     simp only [hfr]
-    exact ⟨_, rfl⟩
+    split
+    · split <;> exact ⟨_, rfl⟩
+    · exact ⟨_, rfl⟩
   case enter r =>
     obtain ⟨f, fs, hfr, _⟩ := hok
     simp only [hfr]
